@@ -101,6 +101,40 @@ def writer_between(f, ld, st, path):
     return None
 
 
+def reaching_store_value(f, ld, pred=None):
+    """the value last stored into the location `ld` reads, on every path that ends in ld (entering ld's block through `pred`
+    when given): found by walking backwards until a store to the same location; a call that may write memory or paths
+    that disagree give None"""
+    key = resolve_addr(f, ld.o[0])
+    if not key.steps:
+        return None
+
+    def scan(block, upto, seen):
+        insts = [i for i in block.insts if upto is None or i.pos < upto]
+        for i in reversed(insts):
+            if i.op == 'store':
+                a = resolve_addr(f, i.o[1])
+                if a.key() == key.key():
+                    return strip_bitcasts(f, i.o[0]) if isinstance(i.o[0], str) else i.o[0]
+                if a.steps == key.steps:
+                    return None              # same field of possibly another object
+            if i.op == 'call' and not i.is_intrinsic() and not i.x.get('noreturn'):
+                return None
+        if block.idx in seen or not block.pred:
+            return None
+        vals = {scan(p, None, seen | {block.idx}) for p in block.pred}
+        return vals.pop() if len(vals) == 1 else None
+    if pred is None:
+        return scan(ld.block, ld.pos, frozenset())
+    # instructions of ld's own block before ld, then the chosen predecessor
+    for i in reversed([x for x in ld.block.insts if x.pos < ld.pos]):
+        if i.op == 'store' and resolve_addr(f, i.o[1]).key() == key.key():
+            return strip_bitcasts(f, i.o[0]) if isinstance(i.o[0], str) else i.o[0]
+        if (i.op == 'store' and resolve_addr(f, i.o[1]).steps == key.steps) or (i.op == 'call' and not i.is_intrinsic() and not i.x.get('noreturn')):
+            return None
+    return scan(pred, None, frozenset({ld.block.idx}))
+
+
 def hash_calls(f):
     return [i for i in f.all_insts() if i.op == 'call' and i.callee is None and i.x.get('fty') == HASH_FTY]
 
@@ -118,6 +152,34 @@ def at_subscripts(f):
         if base is not None and base.op == 'load' and fld(f, base) == 'bucket.at':
             out.append((g, path[0]['idx']))
     return out
+
+
+def _touches_chain(f, gep):
+    """is the bucket addressed by `gep` used for more than reading / initialising its bookkeeping: its chain head is
+    loaded, or the bucket is handed to a callee.  A loop that only compares clean bits (the sweep skipping clean
+    buckets) or only initialises added buckets (n := NULL, cst := x) visits no element."""
+    work = [gep.ref]
+    seen = set()
+    while work:
+        r = work.pop()
+        if r in seen:
+            continue
+        seen.add(r)
+        for u in f.users(r):
+            if u.op in ('getelementptr', 'bitcast'):
+                work.append(u.ref)
+            elif u.op == 'load':
+                a = resolve_addr(f, u.o[0])
+                if a.fsteps[-1:] != (('cstl_hash_bucket', 'cst'),):
+                    return True
+            elif u.op == 'store':
+                if u.o[0] == r:
+                    return True            # the bucket address itself escapes
+            elif u.op == 'call':
+                return True
+            elif u.op in ('phi', 'select', 'ptrtoint'):
+                return True
+    return False
 
 
 class Roles:
@@ -171,7 +233,7 @@ class Roles:
                 i = f.get(idx)
                 while i is not None and i.op in ('zext', 'sext', 'trunc'):
                     i = f.get(i.o[0])
-                if i is not None and i.op == 'phi' and f not in self.walkers and f.name != 'cstl_hash_resize':
+                if i is not None and i.op == 'phi' and f not in self.walkers and f.name != 'cstl_hash_resize' and _touches_chain(f, g):
                     self.walkers.append(f)
 
     def names(self, role):
